@@ -87,11 +87,14 @@ POST = [
     ["group_by", [Cn("b")]],
     ["mutate", [["c", lit(7)], ["h", lit(8)]]],  # names that hidden columns of an operand may have had
     ["summarize", [["n", ["count_star"]]]],
+    ["mutate", [["y", ["round", Cn("c"), lit(1)]]]],  # the SQL type of a union column matters for round
 ]
 SELF = [["union", {"src": "L", "hist": []}, False], ["union", {"src": "L", "hist": []}, True],
         ["union", {"src": "L", "hist": [["filter", [["is_not_null", src("L", "a")]]]]}, False]]
 # right operands that need a subquery themselves
-RSUB = [[["arrange", [src("R", "a"), src("R", "b")]], ["slice_head", 1, 0]],
+RSUB = [[["join", {"src": "R", "alias": "S"}, "inner", [["eq", src("R", "a"), ["col", "right", "a"]]]], ["select", [src("R", "a"), src("R", "b"), src("R", "c")]]],  # a self-join inside the right operand
+        [["mutate", [["c", ["truediv", src("R", "c"), lit(4)]]]]],  # int / float union with fractional values (then round)
+        [["arrange", [src("R", "a"), src("R", "b")]], ["slice_head", 1, 0]],
         [["arrange", [src("R", "a"), src("R", "b")]], ["slice_head", 1, 0], ["alias"]],
         [["mutate", [["c", ["sum", src("R", "c")]]]], ["alias"]]]
 
@@ -116,7 +119,7 @@ def alphabet(tier):
             if kinds == ["slice_head"]:
                 return [["alias"]] + union_events(RHIST[:2])
             if kinds == ["slice_head", "alias"]:
-                return union_events(RHIST[:2] + RSUB[1:2])
+                return union_events(RHIST[:2] + RSUB[3:4])
             if len(kinds) == 1:
                 return union_events(RHIST if tier == "thorough" else RHIST[:3] + RHIST[4:6] + RHIST[10:])
             return []
